@@ -827,6 +827,8 @@ def fix(*maybe_func, max_iter: int = 5) -> Callable:
                 if source in history:
                     break
 
+                history.add(source)
+
             return source
 
         wrapper._fix_func = func
